@@ -146,6 +146,9 @@ pub fn scenarios(tier: Tier) -> Vec<Scenario> {
 // (b) long deterministic laps
 
 pub struct Lap {
+    /// every `period` transactions: open three readers on three different snapshots, then close
+    /// them oldest first, newest next, middle last (0 = never)
+    pub three_readers_every: usize,
     pub name: &'static str,
     pub reopen_every: usize,
     /// (start, length) in transactions of a stretch during which one reader is held open
@@ -155,14 +158,16 @@ pub struct Lap {
 
 pub fn laps() -> Vec<Lap> {
     vec![
-        Lap { name: "fixed-size-overwrite", reopen_every: 0, reader_stretch: None, kind: 0 },
-        Lap { name: "fixed-size-overwrite-reopen-every-50", reopen_every: 50, reader_stretch: None, kind: 0 },
-        Lap { name: "variable-size-overwrite", reopen_every: 0, reader_stretch: None, kind: 1 },
-        Lap { name: "variable-size-overwrite-reopen-every-37", reopen_every: 37, reader_stretch: None, kind: 1 },
-        Lap { name: "delete-reinsert-and-bucket-delete", reopen_every: 0, reader_stretch: None, kind: 2 },
-        Lap { name: "delete-reinsert-and-bucket-delete-reopen-every-101", reopen_every: 101, reader_stretch: None, kind: 2 },
-        Lap { name: "variable-size-with-reader-held-for-a-stretch", reopen_every: 0, reader_stretch: Some((300, 40)), kind: 1 },
-        Lap { name: "bucket-delete-with-reader-held-for-a-stretch", reopen_every: 0, reader_stretch: Some((500, 25)), kind: 2 },
+        Lap { three_readers_every: 0, name: "fixed-size-overwrite", reopen_every: 0, reader_stretch: None, kind: 0 },
+        Lap { three_readers_every: 0, name: "fixed-size-overwrite-reopen-every-50", reopen_every: 50, reader_stretch: None, kind: 0 },
+        Lap { three_readers_every: 0, name: "variable-size-overwrite", reopen_every: 0, reader_stretch: None, kind: 1 },
+        Lap { three_readers_every: 0, name: "variable-size-overwrite-reopen-every-37", reopen_every: 37, reader_stretch: None, kind: 1 },
+        Lap { three_readers_every: 0, name: "delete-reinsert-and-bucket-delete", reopen_every: 0, reader_stretch: None, kind: 2 },
+        Lap { three_readers_every: 0, name: "delete-reinsert-and-bucket-delete-reopen-every-101", reopen_every: 101, reader_stretch: None, kind: 2 },
+        Lap { three_readers_every: 0, name: "variable-size-with-reader-held-for-a-stretch", reopen_every: 0, reader_stretch: Some((300, 40)), kind: 1 },
+        Lap { three_readers_every: 0, name: "bucket-delete-with-reader-held-for-a-stretch", reopen_every: 0, reader_stretch: Some((500, 25)), kind: 2 },
+        Lap { three_readers_every: 60, name: "variable-size-with-three-overlapping-readers-every-60", reopen_every: 0, reader_stretch: None, kind: 1 },
+        Lap { three_readers_every: 45, name: "fixed-size-with-three-overlapping-readers-every-45", reopen_every: 0, reader_stretch: None, kind: 0 },
     ]
 }
 
@@ -186,7 +191,7 @@ fn lap_ops(kind: u8, i: usize) -> Vec<OpSpec> {
 
 pub fn run_lap(lap: &Lap, n: usize, path: &str) -> Value {
     // a reader held by the same thread forbids growth (documented self-deadlock): pre-size the file
-    let cfg = Cfg { num_pages: if lap.reader_stretch.is_some() { 4096 } else { 32 }, ..Cfg::default() };
+    let cfg = Cfg { num_pages: if lap.reader_stretch.is_some() || lap.three_readers_every > 0 { 4096 } else { 32 }, ..Cfg::default() };
     let mut viols: Vec<Value> = vec![];
     let mut r = match Runner::new(path, cfg.clone()) {
         Ok(r) => r,
@@ -216,6 +221,24 @@ pub fn run_lap(lap: &Lap, n: usize, path: &str) -> Value {
                 r.step(&Action::CloseReader(0), &Oracles::NONE);
             }
         }
+        if lap.three_readers_every > 0 && i < n / 2 {
+            // readers on three different snapshots; closed oldest, newest, middle; nothing pinned afterwards
+            match i % lap.three_readers_every {
+                10 | 12 | 14 => {
+                    r.step(&Action::OpenReader, &Oracles::NONE);
+                }
+                16 => {
+                    r.step(&Action::CloseReader(0), &Oracles::NONE);
+                }
+                18 => {
+                    r.step(&Action::CloseReader(1), &Oracles::NONE);
+                }
+                20 => {
+                    r.step(&Action::CloseReader(0), &Oracles::NONE);
+                }
+                _ => {}
+            }
+        }
         let ops = lap_ops(lap.kind, i);
         let or = if i % 97 == 0 { Oracles { dump_after: true, ..Oracles::NONE } } else { Oracles::NONE };
         let v = r.step(&tx(ops), &or);
@@ -229,7 +252,7 @@ pub fn run_lap(lap: &Lap, n: usize, path: &str) -> Value {
         }
         // a leaking build is certain long before the end of the lap: stop as soon as the mark is
         // beyond anything a reusing store can need (also keeps the file from outgrowing its pre-sizing)
-        let allowance = lap.reader_stretch.map(|(_, len)| len as u64 * 64).unwrap_or(0);
+        let allowance = lap.reader_stretch.map(|(_, len)| len as u64 * 64).unwrap_or(0) + if lap.three_readers_every > 0 { 160 } else { 0 };
         if hw_series.last().copied().unwrap_or(0) > 4 * max_live + 16 + allowance && i > 50 {
             break;
         }
@@ -260,7 +283,7 @@ pub fn run_lap(lap: &Lap, n: usize, path: &str) -> Value {
     // (while a reader pins a snapshot everything freed after it is legitimately retained, so the
     // absolute budget applies to the laps without a reader; those with one are judged by the
     // plateau and the settle-after-close rules below)
-    let allowance = lap.reader_stretch.map(|(_, len)| len as u64 * 64).unwrap_or(0);
+    let allowance = lap.reader_stretch.map(|(_, len)| len as u64 * 64).unwrap_or(0) + if lap.three_readers_every > 0 { 160 } else { 0 };
     if hw > budget + allowance {
         viols.push(json!(["unbounded_growth", format!("high-water mark {} pages exceeds 4 x the largest snapshot ({} pages) + 16{} after {} transactions", hw, max_live, if allowance > 0 { format!(" + {} for the pinned stretch", allowance) } else { String::new() }, hw_series.len())]));
     }
